@@ -272,7 +272,7 @@ static char *mname[4] = {"M0", "M1", "M2", "t"};
 static Macro mac[3];
 Macro *stub_find_macro(Token *tok) {
   if (tok->kind != TK_IDENT) return NULL;
-  for (int i = 0; i < 3; i++) if (tok->val == verif_spell(mname[i])) return &mac[i];
+  for (int i = 0; i < TM_N; i++) if (tok->val == verif_spell(mname[i])) return &mac[i];
   return NULL;
 }
 #ifdef NATIVE
@@ -285,12 +285,21 @@ char *stub_read_include_filename(Token **rest, Token *tok, bool *is_dquote) { UN
 void stub_read_macro_definition(Token **rest, Token *tok) { UNREACH("no directive in this input"); }
 void stub_read_line_marker(Token **rest, Token *tok) { UNREACH("no directive in this input"); }
 
+#ifndef TM_N
+#define TM_N 3      // number of macros
+#endif
+#ifndef TM_L
+#define TM_L 1      // maximal body length
+#endif
 void h_terminate(void) {
   HAVOC_IN();
-  __CPROVER_assume(IN.start <= 2);
-  for (int i = 0; i < 3; i++) {
-    __CPROVER_assume(IN.mlen[i] >= 1 && IN.mlen[i] <= 2 && IN.mbody[i][0] < T_N && IN.mbody[i][1] < T_N);
-    for (int j = 0; j < 2; j++) if (j < IN.mlen[i]) mk(TK_IDENT, mname[IN.mbody[i][j]], IN.mbody[i][j] == T_PLAIN ? 1 : 2, true);
+  __CPROVER_assume(IN.start < TM_N);
+  for (int i = 0; i < TM_N; i++) {
+    __CPROVER_assume(IN.mlen[i] >= 1 && IN.mlen[i] <= TM_L);
+    for (int j = 0; j < TM_L; j++) {
+      __CPROVER_assume(IN.mbody[i][j] < TM_N || IN.mbody[i][j] == T_PLAIN);
+      if (j < IN.mlen[i]) mk(TK_IDENT, mname[IN.mbody[i][j]], IN.mbody[i][j] == T_PLAIN ? 1 : 2, true);
+    }
     mk(TK_EOF, "", 0, false);
     mac[i].name = mname[i]; mac[i].is_objlike = true; mac[i].body = take_list();
   }
@@ -305,9 +314,9 @@ void h_terminate(void) {
   int n = 0;
   for (Token *t = out; n < 9 && t->kind != TK_EOF; t = t->next, n++) {
     bool is_macro = false;
-    for (int i = 0; i < 3; i++) if (t->val == verif_spell(mname[i])) is_macro = true;
+    for (int i = 0; i < TM_N; i++) if (t->val == verif_spell(mname[i])) is_macro = true;
     if (is_macro) VASSERT(hideset_contains(t->hideset, t->loc, t->len), "a macro name left in the output is in its own hide set");
   }
-  VASSERT(n <= 8, "at most 2^3 tokens result from 3 macros of <= 2 tokens");
+  VASSERT(n <= 8, "at most 2^3 tokens result");
   VCOVER();
 }
